@@ -1,0 +1,36 @@
+//go:build verif
+
+// Accessors for property C22 (ALPS) and C33 (client robustness). Add-only:
+// wrappers around the client-side EncryptedExtensions unmarshaler (with its uTLS extra
+// fields) and around utlsClientEncryptedExtensionsMsg.marshal.
+package tls
+
+// VerifEEFields is what encryptedExtensionsMsg.unmarshal left in the message.
+type VerifEEFields struct {
+	OK        bool
+	ALPN      string
+	Codepoint uint16 // utls.applicationSettingsCodepoint
+	Settings  []byte // utls.applicationSettings
+	EarlyData bool
+	HasQUIC   bool
+	QUIC      []byte
+	HasECH    bool
+	ECH       []byte
+}
+
+// VerifC22UnmarshalEE runs encryptedExtensionsMsg.unmarshal (handshake_messages.go) on data.
+func VerifC22UnmarshalEE(data []byte) VerifEEFields {
+	m := new(encryptedExtensionsMsg)
+	ok := m.unmarshal(data)
+	return VerifEEFields{
+		OK: ok, ALPN: m.alpnProtocol, Codepoint: m.utls.applicationSettingsCodepoint, Settings: m.utls.applicationSettings,
+		EarlyData: m.earlyData, HasQUIC: m.quicTransportParameters != nil, QUIC: m.quicTransportParameters,
+		HasECH: m.echRetryConfigs != nil, ECH: m.echRetryConfigs,
+	}
+}
+
+// VerifC22MarshalClientEE runs utlsClientEncryptedExtensionsMsg.marshal.
+func VerifC22MarshalClientEE(codepoint uint16, settings, custom []byte) ([]byte, error) {
+	m := &utlsClientEncryptedExtensionsMsg{applicationSettingsCodepoint: codepoint, applicationSettings: settings, customExtension: custom}
+	return m.marshal()
+}
